@@ -849,10 +849,15 @@ class H2Stream:
         self.state_machine.process_input(input_)
         return
 
-    def send_headers(self, headers, encoder, end_stream=False):
+    def send_headers(self, headers, encoder, end_stream=False,
+                     priority_present=False):
         """
         Returns a list of HEADERS/CONTINUATION frames to emit as either headers
         or trailers.
+
+        If the caller is going to add priority information to the HEADERS
+        frame it must say so with ``priority_present``, so that room is left
+        for it in that frame.
         """
         self.config.logger.debug("Send headers %s on %r", headers, self)
 
@@ -886,7 +891,9 @@ class H2Stream:
             hf = HeadersFrame(self.stream_id)
             hdr_validation_flags = self._build_hdr_validation_flags(events)
             frames = self._build_headers_frames(
-                headers, encoder, hf, hdr_validation_flags
+                headers, encoder, hf, hdr_validation_flags,
+                # The priority fields take five bytes of the payload.
+                first_frame_overhead=5 if priority_present else 0
             )
         except ProtocolError:
             # The state machine allowed the headers but we refuse to send
@@ -930,7 +937,9 @@ class H2Stream:
         hdr_validation_flags = self._build_hdr_validation_flags(events)
         try:
             frames = self._build_headers_frames(
-                headers, encoder, ppf, hdr_validation_flags
+                headers, encoder, ppf, hdr_validation_flags,
+                # The promised stream ID takes four bytes of the payload.
+                first_frame_overhead=4
             )
         except ProtocolError:
             # See send_headers: a refused header block leaves no trace.
@@ -1266,9 +1275,13 @@ class H2Stream:
                               headers,
                               encoder,
                               first_frame,
-                              hdr_validation_flags):
+                              hdr_validation_flags,
+                              first_frame_overhead=0):
         """
         Helper method to build headers or push promise frames.
+
+        ``first_frame_overhead`` is the number of payload bytes of the first
+        frame that are taken by fields other than the header block fragment.
         """
         # We need to lowercase the header names, and to ensure that secure
         # header fields are kept out of compression contexts.
@@ -1289,15 +1302,19 @@ class H2Stream:
 
         encoded_headers = encoder.encode(headers)
 
-        # Slice into blocks of max_outbound_frame_size. Be careful with this:
-        # it only works right because we never send padded frames or priority
-        # information on the frames. Revisit this if we do.
-        header_blocks = [
+        # Slice into blocks of max_outbound_frame_size, leaving room in the
+        # first one for the other fields of that frame. Be careful with this:
+        # it only works right because we never send padded frames.
+        first_block_size = self.max_outbound_frame_size - first_frame_overhead
+        header_blocks = [encoded_headers[:first_block_size]]
+        header_blocks.extend(
             encoded_headers[i:i+self.max_outbound_frame_size]
             for i in range(
-                0, len(encoded_headers), self.max_outbound_frame_size
+                first_block_size,
+                len(encoded_headers),
+                self.max_outbound_frame_size
             )
-        ]
+        )
 
         frames = []
         first_frame.data = header_blocks[0]
